@@ -3,9 +3,11 @@ GROUP = dict(
     crate='dukebox', file='dukebox/src/remap.rs', harness_file='remapjar.rs',
     functions=[], trusted=[],
     tests=[
-        dict(name='jar_classes_are_renamed_and_stored_under_their_new_names', props=['C07'], tier='quick', timeout=300, text='x', bound='x'),
+        dict(name='jar_classes_renamed_member_tables_none_and_all', props=['C07'], tier='quick', timeout=300, text='x', bound='x'),
+        dict(name='jar_classes_renamed_member_tables_halves', props=['C07'], tier='quick', timeout=300, text='x', bound='x'),
         dict(name='jar_in_every_input_form', props=['C07'], tier='quick', timeout=300, text='x', bound='x'),
         dict(name='jar_non_class_entries_are_untouched', props=['C07'], tier='quick', timeout=300, text='x', bound='x'),
+        dict(name='jar_non_class_entries_with_the_empty_remapper', props=['C07'], tier='quick', timeout=300, text='x', bound='x'),
         dict(name='jar_entries_in_every_order', props=['C07'], tier='quick', timeout=300, text='x', bound='x'),
         dict(name='jar_unparsed_entries_are_copied_verbatim', props=['C07'], tier='quick', timeout=300, text='x', bound='x'),
         dict(name='jar_remap__colliding_class_names', props=['C07'], tier='quick', timeout=300, text='x', bound='x'),
